@@ -75,7 +75,7 @@ func (k Keeper) RequestModuleService(
 		pds[i] = pd
 	}
 
-	_, totalPrices, _, err := k.FilterServiceProviders(
+	providers, _, _, err := k.FilterServiceProviders(
 		ctx,
 		requestContext.ServiceName,
 		pds,
@@ -86,6 +86,22 @@ func (k Keeper) RequestModuleService(
 	if err != nil {
 		return err
 	}
+
+	if len(providers) == 0 {
+		return errorsmod.Wrapf(
+			types.ErrInvalidProviders,
+			"the module service provider does not satisfy the request: %s",
+			moduleService.Provider,
+		)
+	}
+
+	// charge exactly the fee that the request records (discounts applied)
+	totalPrices := k.GetTotalServiceFees(
+		ctx,
+		requestContext.ServiceName,
+		[]sdk.AccAddress{moduleService.Provider},
+		requestContextConsumer,
+	)
 
 	if err := k.DeductServiceFees(ctx, consumer, totalPrices); err != nil {
 		return err
